@@ -147,6 +147,12 @@ func (c *cubicState) Update(packetsAcked int) {
 		c.s.rtt.Lock()
 		srtt := c.s.rtt.srtt
 		c.s.rtt.Unlock()
+		if srtt == 0 {
+			// No RTT sample has been taken yet (every segment acknowledged so
+			// far was retransmitted). getCwnd divides by srtt; the resulting
+			// +Inf would be converted to a negative window and stall the sender.
+			return
+		}
 		c.s.sndCwnd = c.getCwnd(packetsAcked, c.s.sndCwnd, srtt)
 	}
 }
@@ -175,7 +181,7 @@ func (c *cubicState) getCwnd(packetsAcked, sndCwnd int, srtt time.Duration) int 
 	// as well as Reno.
 	if c.wC < c.wEst && float64(sndCwnd) < c.wEst {
 		// TCP Friendly region of cubic.
-		return int(c.wEst)
+		return cwndFromFloat(c.wEst)
 	}
 
 	// In Concave/Convex region of CUBIC, calculate what CUBIC window
@@ -191,7 +197,21 @@ func (c *cubicState) getCwnd(packetsAcked, sndCwnd int, srtt time.Duration) int 
 		// See: https://tools.ietf.org/html/rfc8312#section-4.3
 		cwnd += (wtRtt - cwnd) / cwnd
 	}
-	return int(cwnd)
+	return cwndFromFloat(cwnd)
+}
+
+// cwndFromFloat converts a window computed in floating point to a number of
+// packets. An estimate beyond the integer range (possible with a very large
+// smoothed RTT) saturates instead of turning into a negative window, which
+// would stop the sender for good.
+func cwndFromFloat(w float64) int {
+	if w >= math.MaxInt32 {
+		return math.MaxInt32
+	}
+	if !(w >= 1) {
+		return 1
+	}
+	return int(w)
 }
 
 // HandleNDupAcks implements congestionControl.HandleNDupAcks.
